@@ -1,21 +1,171 @@
+// yfcheck decides structural clauses of the properties C01..C19 of
+// rpcpool/yellowstone-faithful from /repo's current source (static analysis only).
 package main
 
 import (
+	"encoding/json"
+	"flag"
 	"fmt"
-	"golang.org/x/tools/go/packages"
-	"golang.org/x/tools/go/cfg"
-	"golang.org/x/tools/go/ssa"
-	"golang.org/x/tools/go/ssa/ssautil"
-	"golang.org/x/tools/go/types/typeutil"
+	"os"
+	"path/filepath"
+	"runtime/debug"
+	"sort"
+	"strconv"
+	"strings"
+
+	"yfverif/checker/internal/core"
+	"yfverif/checker/internal/rules"
 )
 
-var _ = cfg.New
-var _ ssa.Value
-var _ = ssautil.AllFunctions
-var _ typeutil.Map
-
 func main() {
-	c := &packages.Config{Mode: packages.LoadSyntax, Dir: "/repo"}
-	pkgs, err := packages.Load(c, "./...")
-	fmt.Println(len(pkgs), err)
+	prop := flag.String("prop", "", "property id (C01..C19)")
+	tier := flag.String("tier", "quick", "quick|thorough")
+	repo := flag.String("repo", "/repo", "repository directory")
+	verif := flag.String("verif", "/verif", "verification directory (evidence, tables, known findings)")
+	replay := flag.String("replay", "", "replay file: re-decide the recorded obligation")
+	overlay := flag.String("overlay", "", "JSON file {relative file: replacement text file} used as in-memory overlay (self-test mutants)")
+	list := flag.Bool("list", false, "list rules")
+	noSelf := flag.Bool("noselftest", false, "thorough tier without the mutant self-test")
+	dump := flag.Bool("dump", false, "print every obligation")
+	findings := flag.Bool("findings", false, "print FINDING rule|key for every non-discharged obligation and write nothing (used by the self-test)")
+	flag.Parse()
+	if t := os.Getenv("VERIF_TIER"); t != "" && !isFlagSet("tier") {
+		*tier = t
+	}
+	seed := 0
+	if s := os.Getenv("VERIF_SEED"); s != "" {
+		seed, _ = strconv.Atoi(s)
+	}
+	if *list {
+		var ids []string
+		for id := range rules.Registry {
+			ids = append(ids, id)
+		}
+		sort.Strings(ids)
+		fmt.Println(strings.Join(ids, " "))
+		return
+	}
+	var replayObl *core.Obligation
+	if *replay != "" {
+		b, err := os.ReadFile(*replay)
+		if err != nil {
+			fmt.Println("cannot read replay file:", err)
+			os.Exit(2)
+		}
+		replayObl = &core.Obligation{}
+		if err := json.Unmarshal(b, replayObl); err != nil {
+			fmt.Println("bad replay file:", err)
+			os.Exit(2)
+		}
+		*prop = replayObl.Property
+	}
+	run, ok := rules.Registry[*prop]
+	if !ok {
+		fmt.Printf("unknown property %q\n", *prop)
+		os.Exit(2)
+	}
+	opts := core.LoadOpts{Dir: *repo}
+	if *overlay != "" {
+		ov, err := readOverlay(*repo, *overlay)
+		if err != nil {
+			fmt.Println("overlay:", err)
+			os.Exit(2)
+		}
+		opts.Overlay = ov
+	}
+	cmdline := strings.Join(os.Args, " ")
+	code := func() (code int) {
+		prog, err := core.Load(opts)
+		if err != nil {
+			// a tree that cannot be loaded cannot be claimed to satisfy anything
+			fmt.Printf("LOAD FAILURE: %v\n", err)
+			if *findings {
+				fmt.Println("FINDING infra|load")
+				fmt.Println("FINDINGS-END")
+				return 1
+			}
+			os.MkdirAll(filepath.Join(*verif, "out", *prop), 0o755)
+			rp := filepath.Join(*verif, "out", *prop, "load-failure.json")
+			os.WriteFile(rp, []byte(fmt.Sprintf("{\"property\":%q,\"rule\":\"infra\",\"key\":\"load\",\"status\":\"undecided\",\"msg\":%q}", *prop, err.Error())), 0o644)
+			fmt.Printf("VIOLATION property=%s replay=%s\n", *prop, rp)
+			return 1
+		}
+		rep := core.NewReport(*prop, *tier, prog)
+		defer func() {
+			if x := recover(); x != nil {
+				fmt.Printf("ANALYZER PANIC: %v\n%s\n", x, debug.Stack())
+				rep.Undecided("infra", "panic", "", fmt.Sprint(x))
+				code = rep.Finish(*verif, seed, cmdline)
+				if code == 0 {
+					code = 1
+				}
+			}
+		}()
+		rules.VerifDir = *verif
+		run(rep)
+		if *tier == "thorough" && *overlay == "" && replayObl == nil && !*noSelf {
+			rules.SelfTest(rep, *repo, *verif)
+		}
+		if *findings {
+			rep.ApplyFloors()
+			for _, o := range rep.Obls {
+				if o.Status != core.Discharged {
+					fmt.Printf("FINDING %s|%s\n", o.Rule, o.Key)
+				}
+			}
+			fmt.Println("FINDINGS-END")
+			return 0
+		}
+		if *dump {
+			for _, o := range rep.Obls {
+				fmt.Printf("  [%s] %s %s @%s: %s\n", o.Status, o.Rule, o.Key, o.Pos, o.Msg)
+			}
+		}
+		if replayObl != nil {
+			for _, o := range rep.Obls {
+				if o.Rule == replayObl.Rule && o.Key == replayObl.Key {
+					fmt.Printf("replay: %s %s -> %s: %s (%s)\n", o.Rule, o.Key, o.Status, o.Msg, o.Pos)
+					if o.Status != core.Discharged {
+						fmt.Printf("VIOLATION property=%s replay=%s\n", *prop, *replay)
+						return 1
+					}
+					return 0
+				}
+			}
+			fmt.Printf("replay: obligation %s %s no longer exists on this tree\n", replayObl.Rule, replayObl.Key)
+			return 0
+		}
+		return rep.Finish(*verif, seed, cmdline)
+	}()
+	os.Exit(code)
+}
+
+func isFlagSet(name string) bool {
+	set := false
+	flag.Visit(func(f *flag.Flag) {
+		if f.Name == name {
+			set = true
+		}
+	})
+	return set
+}
+
+func readOverlay(repo, path string) (map[string][]byte, error) {
+	b, err := os.ReadFile(path)
+	if err != nil {
+		return nil, err
+	}
+	var m map[string]string
+	if err := json.Unmarshal(b, &m); err != nil {
+		return nil, err
+	}
+	out := map[string][]byte{}
+	for rel, src := range m {
+		c, err := os.ReadFile(src)
+		if err != nil {
+			return nil, err
+		}
+		out[filepath.Join(repo, rel)] = c
+	}
+	return out, nil
 }
